@@ -10,7 +10,8 @@ CHECKS = {
  'C03': ('E2 templates over the harness language Lm (variables, +, *, summation binder, let binder) with rule sets that are valid in the finite model GF(3): apply_rewrites from MIR (pattern_subst incl. the substitution form b[x := t] under both SubstMethods via trait-object dispatch, conditional rules with the condition closure from MIR, rules that move terms under binders or re-bind); after every call every class is dumped through enodes_applied and evaluated exhaustively over all environments: all e-nodes of a class denote the same function of the class slots, further (redundant) slots of a node do not influence its value, every inserted term still denotes what its class denotes', 'model_checking', '§4 C03'),
  'C04': ('E2 templates with rewrite steps: the real apply_rewrites (Rewrite::new, boxed searcher/applier, ematch_all, union_instantiations) from MIR on template final states; every oracle instance of a left side has its right side represented and equal afterwards', 'model_checking', '§4 C04'),
  'C05': ('E2 templates with matching steps: every substitution returned by ematch_all binds all variables, its instance is found by lookup alone, matching leaves the e-graph unchanged; pattern slot names range over every slot issued before; multi-pattern matcher: every equation of a returned substitution holds; multi-pattern matcher (multi_ematch) from MIR: every equation of a returned substitution holds', 'model_checking', '§4 C05'),
- 'C14': ('E2 templates with the analyses MinSize and Depth of the harness crate (make/merge dispatched to their MIR): after every operation each class datum equals the oracle least value over all represented terms and the merge-fold of the crate own make over the class e-nodes; analyses with a modify hook outside', 'model_checking', '§4 C14'),
+ 'C14': ('E2 templates with the analyses MinSize, Depth and ConstProp (constant folding with a modify hook that adds the constant and unions it) of the harness crate (make/merge/modify dispatched to their MIR): after every operation each class datum equals the oracle value (least size / depth over all represented terms; constant value of the class in the closure that includes the folded constants) and the merge-fold of the crate own make over the class e-nodes; the datum read through a merged-away id equals the datum of its class; folded constants are represented and equal; no panic, EGraph::check() holds', 'model_checking', '§4 C14'),
+ 'C07': ('E2 templates on the MIR of the explanations build: histories of justified unions, then EGraph::explain_equivalence from MIR for pairs of equal terms (asserted equations and their renamed / flipped instances, union-find chains, congruence also under binders and for terms the e-graph had not seen, transposition and order-3 symmetries incl. inherited ones; thorough: redundant slots, congruence over an order-3 symmetric child); no panic, and the returned proof DAG - every equation written out on terms through get_syn_expr - is re-checked node by node by an independent checker on terms (reflexivity, symmetry, transitivity, congruence under renamings injective on each side of a premise; every leaf an asserted equation with its justification; conclusion = the queried equation up to injective renaming)', 'model_checking', '§4 C07'),
  'C15': ('E2: a call of apply_rewrites that returns false changed no observable and the oracle has no new instance; repeated calls stay false (Runner loop: Kani half, see DESIGN)', 'model_checking', '§4 C15'),
  'C06': ('E2 templates with extraction steps: Extractor::new / extract / get_best_cost from MIR (heap ordered by the crate own WithOrdRev::cmp) for AstSize and per-operator weighted costs; result is a member (lookup_rec_expr + eq), recomputed cost equals the reported cost, equals the oracle minimum over all represented terms, free slots are query arguments or fresh', 'model_checking', '§4 C06'),
  'C08': ('E2 templates: no panic path feasible, EGraph::check() from MIR, enodes look up to their class, idempotent canonicalisation, after every operation; one-step obligations on find_applied_id from arbitrary union-find states (idempotence, key set, compressed entries); thorough: the same histories on the MIR of the checks-feature build', 'model_checking', '§4 C08'),
@@ -25,7 +26,6 @@ CHECKS = {
  'C12': ('E2 templates and their reorderings (insertion order, union order, orientation) agree per coincidence pattern; reorder groups also with an analysis attached (insert-before-union vs insert-after-union)', 'model_checking', '§4 C12'),
 }
 NA = {
- 'C07': 'explanations feature not reachable by the encoder within budget; see DESIGN.md §7',
  'C20': 'thread/hash-seed reproducibility is invisible to a single-threaded symbolic encoding; see DESIGN.md §7',
 }
 def main():
